@@ -277,8 +277,43 @@ func (tr *Tr) stdModel(fr *Frame, site ssa.Instruction, c *ssa.CallCommon, sf *s
 		n := f.Fresh("n_ReadFull", S64)
 		e := tr.freshVal(types.Universe.Lookup("error").Type(), "err_ReadFull")
 		tr.assume(f.And(f.SLe(z, n), f.SLe(n, b[2]), f.Eq(f.Eq(e[0], z), f.Eq(n, b[2]))), "io.ReadFull")
+		rcBefore := tr.get(fr.st, "rcount")
+		wcBefore := tr.get(fr.st, "wcount")
 		tr.havocLog(fr.st)
+		tr.set(fr.st, "wcount", wcBefore)
+		if tr.usesStream() {
+			// sequential-reader model: n more bytes of the stream are consumed; io.EOF means nothing was left,
+			// io.ErrUnexpectedEOF that the stream ended inside the buffer
+			r := args[0]
+			rc := rcBefore
+			pos0 := f.Select(rc, r[1])
+			tr.set(fr.st, "rcount", f.Store(rc, r[1], f.Add(pos0, n)))
+			sl := f.App("streamlen", S64, r[1])
+			conj := []*Term{f.SLe(z, pos0), f.SLe(f.Add(pos0, n), sl), f.SLe(sl, f.BVu(64, 1<<60))}
+			isErr := func(g Val) *Term { return f.And(f.Eq(e[0], g[0]), f.Eq(e[1], g[1])) }
+			if eof := tr.ioEOF(); eof != nil {
+				conj = append(conj, f.Implies(isErr(eof), f.And(f.Eq(n, z), f.Eq(pos0, sl))))
+			}
+			if ue := tr.ioGlobal("ErrUnexpectedEOF"); ue != nil {
+				conj = append(conj, f.Implies(isErr(ue), f.And(f.SLt(z, n), f.SLt(n, b[2]), f.Eq(f.Add(pos0, n), sl))))
+			}
+			tr.assume(f.And(conj...), "io.ReadFull on a sequential reader: consumes n bytes, never past the end; io.EOF / io.ErrUnexpectedEOF exactly at the end")
+			tr.trust("io.ReadFull (sequential reader): consumed grows by n; io.EOF iff nothing was left, io.ErrUnexpectedEOF iff the stream ended inside the buffer")
+		}
 		return append(Val{n}, e...), true
+	case "io.ReadAll":
+		// io.ReadAll(r): a fresh slice holding everything r delivered until EOF; one IN event of len(data) bytes
+		tr.trust("io.ReadAll: returns a fresh slice with every byte the reader delivered (consumed(r) grows by len(data)); reads only")
+		r := args[0]
+		reg := tr.allocTyped(fr.st, types.NewSlice(types.Typ[types.Byte]))
+		ln := f.Fresh("n_ReadAll", S64)
+		tr.assume(f.And(f.SLe(z, ln), f.SLe(ln, tr.maxLen)), "io.ReadAll length")
+		tr.setInner(fr.st, "8", reg, f.Fresh("readall", ArrS(S64, S8)))
+		e := tr.freshVal(types.Universe.Lookup("error").Type(), "err_ReadAll")
+		rc := tr.get(fr.st, "rcount")
+		tr.logEvent(fr.st, evIn, r[1], f.Select(rc, r[1]), ln, nil, nil)
+		tr.set(fr.st, "rcount", f.Store(rc, r[1], f.Add(f.Select(rc, r[1]), ln)))
+		return append(Val{reg, z, ln, ln}, e...), true
 	case "math.Exp2", "math.Log2", "math.Pow", "math.Ceil", "math.Floor", "math.Log":
 		tr.trust("math." + sf.Name() + " as an uninterpreted function")
 		as := []*Term{}
